@@ -33,6 +33,10 @@ def shards(tier: str, seed: int) -> List[Dict[str, Any]]:
         cfgs = pick_cfgs(e, tier)
         if tier == "thorough":
             cfgs = cfgs[:2] + [E.configs(e, tier)[0]]
+        elif e == "PacMan":
+            # the short-limit configuration never leaves the start area: the default maze with its long limit lets the
+            # frontier workload reach the last rows / the tunnel through the adapters
+            cfgs = cfgs + [E.configs(e, tier)[0]]
         seen = set()
         for c in cfgs:
             if c["id"] in seen:
